@@ -345,6 +345,17 @@ pub(crate) async fn handle_actor_stopping_event(
 ) {
   let core_handle = core_arc.handle;
   
+  // The endpoint the user asked to connect to. For ipc the session's own URI is synthetic
+  // ("ipc://ipc-fd-N"), so a retry has to go to the recorded target instead.
+  let reconnect_target_opt: Option<String> = {
+    let state = core_arc.core_state.read();
+    state
+      .endpoints
+      .values()
+      .find(|info| info.handle_id == stopped_actor_id)
+      .and_then(|info| info.target_endpoint_uri.clone())
+  };
+
   // First, perform the resource cleanup regardless of the shutdown phase.
   // This removes the endpoint from the main map.
   // This function returns true if the cleanup might warrant a reconnect.
@@ -375,7 +386,7 @@ pub(crate) async fn handle_actor_stopping_event(
       // Only reconnect if the cleanup indicated it was an outbound session that failed.
       if should_consider_reconnect {
         if let Some(uri_str) = endpoint_uri_opt {
-          let target_uri = uri_str.to_string();
+          let target_uri = reconnect_target_opt.clone().unwrap_or_else(|| uri_str.to_string());
 
           // Calculate delay and update state
           let mut state = core_arc.core_state.write();
